@@ -42,6 +42,22 @@ theorem merge_reads_only_slices (ix ix' : List Nat) (iEnd jEnd i j acc : Nat)
 
 example : sliceOf [1, 2, 3, 7] 0 3 = sliceOf [1, 2, 3, 8] 0 3 := by decide
 
+/-- `merge_count`, bounds clause with checked reads: when both windows end inside `indices`, the loop with every
+    read checked never fails, and is the loop -/
+theorem merge_in_bounds (indices : List Nat) (iEnd jEnd i j acc : Nat)
+    (h1 : iEnd ≤ indices.length) (h2 : jEnd ≤ indices.length) :
+    mergeLoopChecked indices iEnd jEnd i j acc = some (mergeLoop indices iEnd jEnd i j acc) :=
+  mergeLoopChecked_eq indices iEnd jEnd i j acc h1 h2
+
+example : (3 : Nat) ≤ [1, 2, 3, 2, 3, 9].length ∧ (5 : Nat) ≤ [1, 2, 3, 2, 3, 9].length := by decide
+
+/-- …and on the DAG that `get_dag` hands to the kernel every window `[indptr v, indptr (v+1))` ends inside
+    `indices`, so every merge of `count_triangles` (and of any caller using out-lists of this DAG) reads in bounds -/
+theorem dag_windows_in_bounds (n : Nat) (edge : Nat → Nat → Bool) (order : List Int) (hlen : order.length = n)
+    (v : Nat) (hv : v < n) :
+    (getDag n edge order).indptr.getD (v+1) 0 ≤ (getDag n edge order).indices.length :=
+  (top_level_inv n edge order hlen 2).1.seg_le hv
+
 /-- ★ `triangles_exact` (kernel form): on the DAG that `get_dag` builds from the index order, the sequential
     kernel returns the number of 3-cliques of the graph `adj` — for every `n` and every adjacency predicate. -/
 theorem triangles_kernel_exact (n : Nat) (adj : Nat → Nat → Bool) :
